@@ -12,6 +12,7 @@ import (
 	"sort"
 	"strconv"
 	"strings"
+	"syscall"
 	"time"
 
 	"github.com/styrainc/regal/pkg/config"
@@ -35,6 +36,18 @@ type GitSpec struct {
 	// around them (git submodule add): "dir" = the submodule keeps its .git directory, "file" = it is absorbed into the
 	// superproject (git submodule absorbgitdirs: .git is a file, the layout a clone with submodules has)
 	Submodules map[string]string `json:"submodules,omitempty"`
+	// SubOpts: how a submodule of Submodules got where it is (all optional; default: added at its path under that name)
+	SubOpts map[string]SubOpt `json:"sub_opts,omitempty"`
+}
+
+// SubOpt: the NAME of a submodule (the key of its sections in .gitmodules and .git/config, and of its directory under
+// .git/modules) is only by default the path it was first added at.
+type SubOpt struct {
+	Name      string `json:"name,omitempty"`       // git submodule add --name <Name>
+	MovedFrom string `json:"moved_from,omitempty"` // added at this path (which stays its name), then `git mv`ed to where it is
+	// Deinit: registered in .gitmodules but not checked out (git submodule deinit: what a clone without
+	// --recurse-submodules leaves): an empty directory; no file of the workspace may lie in it
+	Deinit bool `json:"deinit,omitempty"`
 }
 
 // WS describes a workspace and one invocation.
@@ -70,6 +83,33 @@ type WS struct {
 	// Repeat: corpus only; run the workspace this many times per policy (the order in which the linter reports
 	// violations, and with it the order of the moves, differs from run to run)
 	Repeat int `json:"repeat,omitempty"`
+	// Concurrent (C14): somebody else writes to the workspace WHILE the command runs, see ConcSpec
+	Concurrent *ConcSpec `json:"concurrent,omitempty"`
+}
+
+// ConcSpec: a writer that changes files of the workspace while `regal fix` is running, at a moment that is pinned
+// down by something the command itself does (no sleeping, no guessing):
+//
+//	Mode "fifo":  Fifo names a .rego path that is a named pipe.  The command blocks when it opens it for reading (it
+//	              reads its input files one after the other, in sorted order); at that moment -- the writer's own open
+//	              of the pipe returns exactly then -- the writer applies Edits, then feeds FifoContent into the pipe and
+//	              closes it, and the command goes on.  Files sorted before Fifo were read BEFORE the edit (the command
+//	              holds stale content), files sorted after it are read after the edit.
+//	Mode "debug": the command is run with --debug and its stderr is the smallest pipe there is (4 KiB).  With --debug
+//	              the linter logs "merged provided and user config:" followed by the whole merged configuration
+//	              (tens of KiB, one write) from Linter.GetConfig, i.e. after the input files were read and before
+//	              anything is written.  The writer reads stderr in small pieces and STOPS reading when Trigger shows up:
+//	              the rest of the message does not fit into the pipe, so the command waits inside write(2), in the
+//	              middle of its first lint run, while Edits are applied; then reading goes on.  Should the message ever
+//	              get short enough to fit, the moment is only as exact as the scheduler lets the writer be -- "the edit
+//	              must survive" stays a robust expectation (an edit landing after the command's write survives trivially).
+type ConcSpec struct {
+	Mode        string            `json:"mode"`
+	Fifo        string            `json:"fifo,omitempty"`
+	FifoContent string            `json:"fifo_content,omitempty"`
+	Trigger     string            `json:"trigger,omitempty"`
+	Edits       map[string]string `json:"edits"`             // path -> new content (written by the concurrent writer)
+	Deletes     []string          `json:"deletes,omitempty"` // paths removed by the concurrent writer
 }
 
 func Content(f WFile) string {
@@ -107,6 +147,8 @@ func Snapshot(root string) Snap {
 		} else if info.Mode()&os.ModeSymlink != 0 {
 			t, _ := os.Readlink(p)
 			s.Files[rel] = "symlink -> " + t + "\n"
+		} else if info.Mode()&os.ModeNamedPipe != 0 {
+			s.Files[rel] = "fifo\n"
 		} else {
 			b, _ := os.ReadFile(p)
 			s.Files[rel] = string(b)
@@ -264,10 +306,29 @@ func Materialise(ws *WS, root string) {
 		}
 		op := filepath.Join(root, outer)
 		rel, _ := filepath.Rel(op, filepath.Join(root, sd))
-		git(op, "-c", "protocol.file.allow=always", "submodule", "--quiet", "add", "./"+rel, rel)
-		git(op, "commit", "-q", "-m", "submodule "+rel)
-		if ws.Git.Submodules[sd] == "file" {
-			git(op, "submodule", "--quiet", "absorbgitdirs", rel)
+		opt := ws.Git.SubOpts[sd]
+		addAt := rel
+		if opt.MovedFrom != "" { // the repository is added at another path first (plain rename: nothing is registered yet)
+			addAt = opt.MovedFrom
+			must(os.MkdirAll(filepath.Dir(filepath.Join(op, addAt)), 0o755))
+			must(os.Rename(filepath.Join(op, rel), filepath.Join(op, addAt)))
+		}
+		addArgs := []string{"-c", "protocol.file.allow=always", "submodule", "--quiet", "add"}
+		if opt.Name != "" {
+			addArgs = append(addArgs, "--name", opt.Name)
+		}
+		git(op, append(addArgs, "./"+addAt, addAt)...)
+		git(op, "commit", "-q", "-m", "submodule "+addAt)
+		if ws.Git.Submodules[sd] == "file" || opt.MovedFrom != "" || opt.Deinit {
+			git(op, "submodule", "--quiet", "absorbgitdirs", addAt)
+		}
+		if opt.MovedFrom != "" { // git keeps the name (the old path), changes the path
+			must(os.MkdirAll(filepath.Dir(filepath.Join(op, rel)), 0o755))
+			git(op, "mv", addAt, rel)
+			git(op, "commit", "-q", "-m", "move submodule "+addAt+" to "+rel)
+		}
+		if opt.Deinit {
+			git(op, "submodule", "--quiet", "deinit", "-f", rel)
 		}
 	}
 	for _, f := range ws.Files {
@@ -378,7 +439,11 @@ func Prepare(ws *WS, workdir string, idx int) *Prepared {
 			cmd := exec.Command("git", "show", "HEAD:"+inrepo)
 			cmd.Dir = rp
 			out, err := cmd.Output()
-			p.Restorable[rel] = err == nil && string(out) == txt
+			want := txt
+			if strings.HasPrefix(txt, "symlink -> ") { // the blob of a link is its target
+				want = strings.TrimSuffix(strings.TrimPrefix(txt, "symlink -> "), "\n")
+			}
+			p.Restorable[rel] = err == nil && string(out) == want
 		}
 	}
 	return p
@@ -399,6 +464,105 @@ type Result struct {
 	Repos      []string        `json:"repos,omitempty"`
 	Restorable map[string]bool `json:"restorable,omitempty"`
 	Porcelain  []string        `json:"porcelain,omitempty"`
+	// with ws.Concurrent: Before is the tree right after the concurrent writer's edits (the last tree the command can
+	// have looked at before it decided), PreEdit the tree the command was started on; Applied: the moment was reached
+	PreEdit *Snap `json:"pre_edit,omitempty"`
+	Applied bool  `json:"applied,omitempty"`
+}
+
+// runWithWriter runs the command with the concurrent writer of ws.Concurrent (see ConcSpec).
+func (p *Prepared) runWithWriter(cmd *exec.Cmd, se *bytes.Buffer, real string, res *Result) error {
+	c := p.WS.Concurrent
+	apply := func() {
+		for _, d := range c.Deletes {
+			os.Remove(filepath.Join(real, d))
+		}
+		paths := make([]string, 0, len(c.Edits))
+		for e := range c.Edits {
+			paths = append(paths, e)
+		}
+		sort.Strings(paths)
+		for _, e := range paths {
+			fp := filepath.Join(real, e)
+			must(os.MkdirAll(filepath.Dir(fp), 0o755))
+			must(os.WriteFile(fp, []byte(c.Edits[e]), 0o644))
+		}
+		mid := Snapshot(real)
+		if c.Fifo != "" {
+			delete(mid.Files, c.Fifo)
+		}
+		pre := res.Before
+		res.PreEdit, res.Before, res.Applied = &pre, mid, true
+		// what the writer wrote is in no commit
+		rest := map[string]bool{}
+		for k, v := range res.Restorable {
+			rest[k] = v
+		}
+		for _, e := range paths {
+			rest[e] = false
+		}
+		res.Restorable = rest
+	}
+	switch c.Mode {
+	case "fifo":
+		fifo := filepath.Join(real, c.Fifo)
+		must(os.MkdirAll(filepath.Dir(fifo), 0o755))
+		must(syscall.Mkfifo(fifo, 0o644))
+		defer os.Remove(fifo)
+		if err := cmd.Start(); err != nil {
+			return err
+		}
+		done := make(chan error, 1)
+		go func() { done <- cmd.Wait() }()
+		for {
+			// succeeds as soon as (and only when) somebody has the pipe open for reading: the command, which stays
+			// blocked in that read until this end is closed
+			fd, e := syscall.Open(fifo, syscall.O_WRONLY|syscall.O_NONBLOCK, 0)
+			if e == nil {
+				apply()
+				syscall.Write(fd, []byte(c.FifoContent))
+				syscall.Close(fd)
+				return <-done
+			}
+			select {
+			case err := <-done: // the command ended without ever opening the pipe
+				return err
+			case <-time.After(200 * time.Microsecond):
+			}
+		}
+	case "debug":
+		pr, pw, err := os.Pipe()
+		must(err)
+		// the smallest pipe there is: the command blocks in the write of its (long) debug output whenever this side
+		// does not read
+		syscall.Syscall(syscall.SYS_FCNTL, pw.Fd(), 1031 /* F_SETPIPE_SZ */, 4096)
+		cmd.Stderr = pw
+		cmd.Args = append([]string{cmd.Args[0], cmd.Args[1], "--debug"}, cmd.Args[2:]...)
+		if err := cmd.Start(); err != nil {
+			pw.Close()
+			pr.Close()
+			return err
+		}
+		pw.Close()
+		buf := make([]byte, 512)
+		applied := false
+		for {
+			n, e := pr.Read(buf)
+			se.Write(buf[:n])
+			if !applied && bytes.Contains(se.Bytes(), []byte(c.Trigger)) {
+				// the rest of the message does not fit into the pipe: the command waits in write(2), in the middle
+				// of its first lint run, until reading goes on below
+				applied = true
+				apply()
+			}
+			if e != nil {
+				break
+			}
+		}
+		pr.Close()
+		return cmd.Wait()
+	}
+	panic("unknown concurrent mode: " + c.Mode)
 }
 
 // Execute runs the binary once and removes the workspace.
@@ -452,7 +616,12 @@ func (p *Prepared) Execute(regal string) Result {
 	}
 	var so, se bytes.Buffer
 	cmd.Stdout, cmd.Stderr = &so, &se
-	err := cmd.Run()
+	var err error
+	if ws.Concurrent != nil {
+		err = p.runWithWriter(cmd, &se, real, &res)
+	} else {
+		err = cmd.Run()
+	}
 	if err != nil {
 		if ee, ok := err.(*exec.ExitError); ok {
 			res.Exit = ee.ExitCode()
@@ -464,7 +633,12 @@ func (p *Prepared) Execute(regal string) Result {
 		res.Exit = -2
 		se.WriteString("\nverif: killed after 90s without an answer")
 	}
-	res.Stderr = norm(trunc(se.String()))
+	if ws.Concurrent != nil && ws.Concurrent.Mode == "debug" && se.Len() > 1500 {
+		// --debug prints the merged configuration first: the verdict is at the end
+		res.Stderr = norm(se.String()[se.Len()-1500:])
+	} else {
+		res.Stderr = norm(trunc(se.String()))
+	}
 	res.Stdout = norm(trunc(so.String()))
 	res.After = Snapshot(real)
 	os.RemoveAll(base)
